@@ -637,3 +637,35 @@ Theorem C02_completion_tagged_instance :
                Proofs.CompletionTagged.TwoHaps.input Proofs.CompletionTagged.TwoHaps.pretext = Ok rs.
 Proof. exact Proofs.CompletionTagged.two_haplotype_map_completes. Qed.
 Print Assumptions C02_completion_tagged_instance.
+
+(* ========================================================================
+   THE LANDING CLAUSE FOR ANY TAGS (haplotypes, Unloc, Haplotig, Contaminant,
+   name tags ...): on every map that tiles the scaffolds it shows, whenever the
+   whole run completes, every piece with a contig base in its core has a result
+   (C18 invariant, core_kept) whose rows sit as ONE contiguous block in a
+   scaffold of an output assembly, carrying the result's tag and haplotype --
+   the capstone's steps never look at tags.  Completion itself:
+   C02_completion_tagged (first half), C02_painted_maps_complete (all of it). *)
+From Tola Require Proofs.EndToEndC02AnyTags.
+Theorem C02_cores_land_any_tags : forall g prefix n d input pretext o,
+  0 < d -> d <= n ->
+  Forall Proofs.Completion.input_ok input -> NoDup (map fst input) ->
+  NoDup (map key_of (Model.RemapSpec.in_frags input)) ->
+  Forall (fun b => In (f_name b) (map fst input)) (Proofs.CoreKept.baits_of pretext) ->
+  Forall (Proofs.Completion.scaffold_tiled n d (Proofs.CoreKept.baits_of pretext)) input ->
+  remap repaired g prefix (n, d) input pretext = Ok o ->
+  exists rs,
+    remap_to_input repaired g prefix (n, d) input pretext = Ok rs
+    /\ let err := error_length (n, d) in
+       forall bait src x,
+         In bait (Proofs.CoreKept.baits_of pretext) ->
+         In (f_name bait, src) (number_input input 0) ->
+         Proofs.CoreKept.in_core err bait x -> Proofs.CoreKept.contig_base src x ->
+         exists r a sc pre suf,
+           In r (b_store (rs_b rs)) /\ o_bait r = bait
+           /\ Model.OvrSpec.Inv src r /\ Proofs.CoreKept.core_kept err src r
+           /\ In a (out_asms o) /\ In sc (oa_scaffolds a)
+           /\ sc_rows sc = pre ++ to_scaffold_rows r ++ suf
+           /\ sc_tag sc = o_tag r /\ sc_hap sc = o_hap r.
+Proof. exact Proofs.EndToEndC02AnyTags.c02_cores_land_any_tags. Qed.
+Print Assumptions C02_cores_land_any_tags.
